@@ -223,7 +223,8 @@ func reifyMap(opts *options, to reflect.Value, from *Config, validators []valida
 	for _, k := range sortedKeys(fields) {
 		value := fields[k]
 		opts.activeFields = newFieldSet(parentFields)
-		key := reflect.ValueOf(k)
+		// the key type is of kind string, but may be a named type
+		key := reflect.ValueOf(k).Convert(to.Type().Key())
 
 		old := to.MapIndex(key)
 		var v reflect.Value
